@@ -4,6 +4,7 @@ import (
 	"errors"
 	"fmt"
 	"math/rand/v2"
+	"os"
 	"runtime"
 	"sort"
 	"strings"
@@ -69,7 +70,11 @@ var poolDrawn struct {
 	size       int
 	foreignPct int
 	race       bool
+	blockBytes int
 }
+
+// poolProtoBytes is SimProto's own MaxTxnBytesPerBlock (remembered the first time a pool run changes it).
+var poolProtoBytes int
 
 func init() {
 	for _, p := range []string{"C20", "C44"} {
@@ -77,6 +82,10 @@ func init() {
 			poolDrawn.size = draw("cfg.pool.size", 8, 30)
 			poolDrawn.foreignPct = []int{15, 30, 50}[draw("cfg.pool.foreign", 0, 2)]
 			poolDrawn.race = draw("cfg.pool.race", 0, 3) == 3
+			// 0 = the protocol's block size (never reached with <=30 pending transactions); otherwise blocks
+			// of a few kilobytes, so that the pending set spans several blocks (ErrNoSpace, numPendingWholeBlocks,
+			// the pool's fee escalation, assembly stopped because the block is full)
+			poolDrawn.blockBytes = []int{0, 0, 2600, 6000}[draw("cfg.pool.blockbytes", 0, 3)]
 			if c.MaxGroups < 3 {
 				c.MaxGroups = 3
 			}
@@ -120,19 +129,21 @@ type preAssembled struct {
 
 type poolObs struct {
 	NopObserver
-	s       *Sim
-	size    int
-	fpct    int
-	raceOK  bool
-	raced   int
-	pool    *pools.TransactionPool
-	poolLed *ledger.Ledger
+	s          *Sim
+	size       int
+	fpct       int
+	raceOK     bool
+	blockBytes int
+	raced      int
+	pool       *pools.TransactionPool
+	poolLed    *ledger.Ledger
 	// committed: txid -> round, from the blocks the driver added (rolled back with them)
 	committed map[transactions.Txid]basics.Round
 	recent    [][]transactions.SignedTxn // groups committed in the last few blocks
 	parts     map[basics.Round][]basics.Address
 	plan      *poolPlan
 	pre       *preAssembled
+	c20, c44  bool // which property this run decides: each run asserts only its own oracles
 	local     bool // the block being added was assembled from the pool
 	localElig bool
 	rep       *poolReplica
@@ -142,14 +153,30 @@ type poolObs struct {
 }
 
 func newPoolObs(s *Sim) *poolObs {
-	o := &poolObs{s: s, size: poolDrawn.size, fpct: poolDrawn.foreignPct, raceOK: poolDrawn.race,
+	o := &poolObs{s: s, c20: s.cfg.Prop == "C20", c44: s.cfg.Prop == "C44", size: poolDrawn.size, fpct: poolDrawn.foreignPct, raceOK: poolDrawn.race,
 		committed: map[transactions.Txid]basics.Round{}, parts: map[basics.Round][]basics.Address{}}
+	// The simulated consensus version is private to this process and a worker process runs one property
+	// only; the block size is set before the first ledger of the run is opened (no reader exists yet).
+	cp := config.Consensus[SimProto]
+	if poolProtoBytes == 0 {
+		poolProtoBytes = cp.MaxTxnBytesPerBlock
+	}
+	cp.MaxTxnBytesPerBlock = poolProtoBytes
+	if poolDrawn.blockBytes > 0 {
+		cp.MaxTxnBytesPerBlock = poolDrawn.blockBytes
+	}
+	config.Consensus[SimProto] = cp
+	o.blockBytes = poolDrawn.blockBytes
 	s.statInit("pool.local_blocks", "pool.local_nonempty", "pool.local_empty", "pool.foreign_blocks", "pool.pre_early", "pool.pre_cut", "pool.pre_late_empty",
 		"pool.race_remember", "pool.remember_ok", "pool.remember_rejected", "pool.verify_rejected", "pool.reject.queue_full", "pool.reject.overspend",
 		"pool.reject.lease", "pool.reject.in_ledger", "pool.reject.dead", "pool.reject.early", "pool.evicted", "pool.evict.overspend", "pool.evict.lease",
-		"pool.evict.dead", "pool.foreign_committed_pending", "pool.recreated", "pool.carried_over", "pool.size_limit_reached",
-		"c44.checks", "c44.replayed_groups", "c44.admission_checked", "c20.kway", "c20.kway_nonempty", "c20.local_validated", "c20.replica_validated",
-		"c20.order_differs", "pool.replica_reload", "pool.replica_crash", "pool.replica_rebuild")
+		"pool.evict.dead", "pool.foreign_committed_pending", "pool.recreated", "pool.carried_over")
+	if o.c44 {
+		s.statInit("pool.size_limit_reached", "c44.checks", "c44.replayed_groups", "c44.admission_checked", "c44.replay_block_full", "pool.reject.fee", "pool.reject.no_space")
+	}
+	if o.c20 {
+		s.statInit("c20.kway", "c20.kway_nonempty", "c20.local_validated", "c20.replica_validated", "c20.order_differs", "pool.replica_reload", "pool.replica_crash", "pool.replica_rebuild")
+	}
 	return o
 }
 
@@ -178,6 +205,7 @@ func (o *poolObs) makePool(s *Sim) {
 	o.pre = nil
 	synctest.Wait()
 	s.stat("pool.recreated", 1)
+	s.log.Add("  pool: new TransactionPool over the ledger at block %d (TxPoolSize %d, MaxTxnBytesPerBlock %d, foreign rounds %d%%)", s.latest, o.size, config.Consensus[SimProto].MaxTxnBytesPerBlock, o.fpct)
 }
 
 // ---------------------------------------------------------------------------------------------
@@ -188,7 +216,7 @@ func (o *poolObs) ExtraGroups(s *Sim, g *Gen, ev *eval.BlockEvaluator, hdr *book
 	if o.pool == nil || o.poolLed != s.led {
 		o.makePool(s)
 	}
-	if o.rep == nil {
+	if o.rep == nil && o.c20 {
 		o.startReplica(s, g)
 		if s.harness != "" {
 			return cands
@@ -273,6 +301,11 @@ func (o *poolObs) ProposeBlock(s *Sim, g *Gen, cands []Candidate, hdr bookkeepin
 		// the pool has processed every block of the ledger: AssembleBlock returns the block generated at
 		// the end of the last recomputeBlockEvaluator without waiting, whatever the deadline
 		d := []time.Duration{500 * time.Millisecond, 250 * time.Millisecond, time.Millisecond, 0}[g.n(4)]
+		if ok, rr := o.pool.VerifAssemblyState(); !ok || rr != next {
+			// AssembleBlock would wait for a deadline on the real clock (see the note on time above)
+			s.harness = fmt.Sprintf("the pool holds no assembled block for round %d although it was told about block %d (ok=%v round=%d)", next, s.latest, ok, rr)
+			return nil, false
+		}
 		ub, err = o.pool.AssembleBlock(next, time.Now().Add(d))
 	}
 	o.pre = nil
@@ -343,6 +376,9 @@ func classifyPoolErr(err error) string {
 	if errors.Is(err, pools.ErrNoPendingBlockEvaluator) {
 		return "no_evaluator"
 	}
+	if errors.Is(err, ledgercore.ErrNoSpace) {
+		return "no_space"
+	}
 	var fe *pools.ErrTxPoolFeeError
 	if errors.As(err, &fe) {
 		return "fee"
@@ -381,12 +417,27 @@ func (o *poolObs) freshEvaluator(s *Sim, hint int) *eval.BlockEvaluator {
 	if !ok {
 		return nil
 	}
-	ev, err := eval.StartEvaluator(s.led, bookkeeping.MakeBlock(prev).BlockHeader, eval.EvaluatorOptions{PaysetHint: hint, Generate: true, Validate: true})
+	hdr := bookkeeping.MakeBlock(prev).BlockHeader
+	hdr.TimeStamp = prev.TimeStamp // always inside the window validators accept, whatever the clock says
+	ev, err := eval.StartEvaluator(s.led, hdr, eval.EvaluatorOptions{PaysetHint: hint, Generate: true, Validate: true})
 	if err != nil {
 		s.harness = "C44 replay: StartEvaluator: " + err.Error()
 		return nil
 	}
 	return ev
+}
+
+// applyGroup evaluates one group on the replay evaluator. Block space is not ledger state: when the block
+// under construction is full the pool starts counting a further block (ResetTxnBytes) and evaluates the
+// group again; the replay does the same.
+func (o *poolObs) applyGroup(s *Sim, ev *eval.BlockEvaluator, grp []transactions.SignedTxn) error {
+	err := ev.TransactionGroup(transactions.WrapSignedTxnsWithAD(grp)...)
+	if err == ledgercore.ErrNoSpace {
+		s.stat("c44.replay_block_full", 1)
+		ev.ResetTxnBytes()
+		err = ev.TransactionGroup(transactions.WrapSignedTxnsWithAD(grp)...)
+	}
+	return err
 }
 
 // replay feeds the pool's pending groups IN ORDER to a fresh evaluator; every group must be accepted.
@@ -396,7 +447,7 @@ func (o *poolObs) replay(s *Sim, where string, pg [][]transactions.SignedTxn) *e
 		return nil
 	}
 	for i, grp := range pg {
-		if err := ev.TransactionGroup(transactions.WrapSignedTxnsWithAD(grp)...); err != nil {
+		if err := o.applyGroup(s, ev, grp); err != nil {
 			s.violate("C44", "pending-unappliable", "", fmt.Sprintf("%s (latest block %d): pending group #%d of %d (first txid %s, %d txns, valid %d-%d) is rejected when the pending groups are replayed in order on a fresh evaluator for round %d: %v",
 				where, s.latest, i, len(pg), grp[0].ID().String()[:8], len(grp), grp[0].Txn.FirstValid, grp[0].Txn.LastValid, s.latest+1, err))
 			return nil
@@ -409,7 +460,7 @@ func (o *poolObs) replay(s *Sim, where string, pg [][]transactions.SignedTxn) *e
 
 // checkPending is the C44 oracle at a quiescent point.
 func (o *poolObs) checkPending(s *Sim, where string) *eval.BlockEvaluator {
-	if s.viol != nil || s.harness != "" || o.pool == nil {
+	if s.viol != nil || s.harness != "" || o.pool == nil || !o.c44 {
 		return nil
 	}
 	pg := o.pool.PendingTxGroups()
@@ -465,7 +516,7 @@ func (o *poolObs) submitBatch(s *Sim, batch []poolSub) {
 		return
 	}
 	rev := o.checkPending(s, "before-remember")
-	if rev == nil {
+	if rev == nil && o.c44 {
 		return
 	}
 	acc, rej, vrej := 0, 0, 0
@@ -493,8 +544,11 @@ func (o *poolObs) submitBatch(s *Sim, batch []poolSub) {
 		s.stat("pool.remember_ok", 1)
 		s.stat("pool.kind."+sub.Kind+".ok", 1)
 		res = append(res, sub.Kind+":ok")
+		if !o.c44 {
+			continue
+		}
 		s.stat("c44.admission_checked", 1)
-		if e := rev.TransactionGroup(transactions.WrapSignedTxnsWithAD(sub.Txns)...); e != nil {
+		if e := o.applyGroup(s, rev, sub.Txns); e != nil {
 			s.violate("C44", "admitted-unappliable", "", fmt.Sprintf("latest block %d: Remember admitted a %q group (first txid %s, %d txns) that a fresh evaluator for round %d rejects on top of the pending groups: %v",
 				s.latest, sub.Kind, sub.Txns[0].ID().String()[:8], len(sub.Txns), s.latest+1, e))
 			return
@@ -595,6 +649,17 @@ func (o *poolObs) BlockDone(s *Sim, prev, next *State, blk bookkeeping.Block, de
 	}
 	// --- the notification, as ledger/notifier.go delivers it: listener.OnNewBlock(blk.block, blk.delta)
 	o.pool.OnNewBlock(blk, delta)
+	if ok, rr := o.pool.VerifAssemblyState(); !ok || rr != r+1 {
+		msg := fmt.Sprintf("after OnNewBlock(%d) the pool holds no assembled block for round %d (ok=%v round=%d): its evaluator could not be restarted", r, r+1, ok, rr)
+		if preCh != nil {
+			// an AssembleBlock call is waiting for that block on the real clock and cannot be released:
+			// leave the process (the driver reports a harness error, never a verdict)
+			fmt.Fprintln(os.Stderr, "HARNESS: "+msg)
+			os.Exit(2)
+		}
+		s.harness = msg
+		return
+	}
 	synctest.Wait()
 	if preCh != nil {
 		o.pre = <-preCh
@@ -684,7 +749,7 @@ func (o *poolObs) AfterReopen(s *Sim, why string) {
 		return
 	}
 	rev := o.checkPending(s, "after-reopen-empty")
-	if rev == nil {
+	if rev == nil && o.c44 {
 		return
 	}
 	acc := 0
@@ -698,7 +763,10 @@ func (o *poolObs) AfterReopen(s *Sim, why string) {
 		}
 		acc++
 		s.stat("pool.carried_over", 1)
-		if e := rev.TransactionGroup(transactions.WrapSignedTxnsWithAD(grp)...); e != nil {
+		if !o.c44 {
+			continue
+		}
+		if e := o.applyGroup(s, rev, grp); e != nil {
 			s.violate("C44", "admitted-unappliable", "", fmt.Sprintf("after %s at block %d: Remember admitted a re-submitted group (first txid %s) that a fresh evaluator rejects on top of the pending groups: %v", why, s.latest, grp[0].ID().String()[:8], e))
 			return
 		}
